@@ -128,7 +128,7 @@ func genGraph(t *rapid.T) *GraphCase {
 // (b) readings of the registered graph
 // ---------------------------------------------------------------------------
 
-// minEdges: G_min(S) — nearest-wins from S, soft edges ignored.
+// minEdges: G_min(S) — nearest-wins from S (single keys), every feeder of a group (soft ones too).
 func (m *Model) minEdges(S int, u *MFn, extra *MFn) []*MFn {
 	var out []*MFn
 	nearest := func(k MKey) *MFn {
@@ -147,9 +147,8 @@ func (m *Model) minEdges(S int, u *MFn, extra *MFn) []*MFn {
 	}
 	for _, l := range u.Leaves {
 		if l.IsGroup {
-			if l.Soft {
-				continue
-			}
+			// soft groups included: the property lists value-group edges
+			// without exception, and dig's graph has them
 			for _, a := range m.Anc(S) {
 				for _, c := range m.Scopes[a].Ctors {
 					if c.SlotFor(l.Key) >= 0 {
